@@ -338,6 +338,13 @@ def search(ctx, boost=1, focus=()):
             pat = {"kind": ("rgbs", "background_subtraction")[(k // 8) % 2], "radius": r_in, "radius_outer": r_out,
                    "search": float(np.round(r_out + rng.uniform(0, 4), 2))}
             ctx.count("thin_ring")
+        if k % 8 == 3:
+            # a wide ring: outer radius three to five times the inner one (a small disk on a broad background annulus)
+            r_in = float(np.round(rng.uniform(1.5, 5.0), 2)) if (k // 8) % 2 else float(rng.integers(2, 5))
+            r_out = float(np.round(r_in * rng.uniform(3.0, 5.0), 2))
+            pat = {"kind": ("background_subtraction", "rgbs")[(k // 16) % 2], "radius": r_in, "radius_outer": r_out,
+                   "search": float(np.round(r_out + rng.uniform(0, 3), 2))}
+            ctx.count("wide_ring")
         shape = [int(rng.integers(2, 91)), int(rng.integers(2, 91))]
         if k % 4 == 0:
             shape = [2 * int(np.ceil(pat["search"]))] * 2
